@@ -15,6 +15,7 @@ CONSTANTS
   WriteLock = FALSE
   AtomicDown = FALSE
   CompleteOnDownError = TRUE
+  CloseBeforeSwap = TRUE
   MaxFaults = 0
   MaxCancels = 1
   AllowClose = FALSE
